@@ -10,10 +10,11 @@ VARIABLE ops
 allv == <<mvars, ops>>
 
 Init == MInit(LoaderSet, FlagSet, CauseSet, LenSet) /\ ops = <<>>
-         /\ (loader \in {"load_full", "load_mem"} => flags = 0)
+         /\ (loader \in {"load_full", "load_mem", "encase"} => flags = 0)
+         /\ (loader = "encase" => (cause = "valid" /\ prior = "absent"))
 Lab(a, name) == a /\ ops' = Append(ops, name)
 Next ==
-  \/ (Store \/ PreCheck \/ Stat \/ Alloc \/ Advise \/ ReadFill \/ Wrap \/ Deser \/ Return) /\ UNCHANGED ops
+  \/ (Store \/ PreCheck \/ Encase \/ Stat \/ Alloc \/ Advise \/ ReadFill \/ Wrap \/ Deser \/ Return) /\ UNCHANGED ops
   \/ Lab(Move, "move") \/ Lab(BoxIt, "box") \/ Lab(Unbox, "unbox") \/ Lab(SendTo, "send") \/ Lab(SendBack, "back")
   \/ Lab(ShareArc, "arc") \/ Lab(Unshare, "unarc")
   \/ (ReaderEnter \/ ReaderLeave) /\ UNCHANGED ops
